@@ -37,9 +37,12 @@ RULE = (
 )
 ASSUMPTIONS = c01.ASSUMPTIONS + [
     "a zombie re-execution models the thread that Future.cancel() cannot stop; it uses the same pickled/bound task",
-    "placement in a fresh interpreter is only exercised in-process through the cloudpickle round trip in this tier",
+    "placement: in 1/8 (quick) or 1/4 (thorough) of the runs task bodies execute in fresh interpreters (spawned per run, one or two per run) from their pickled form, with all store traffic served by the simulated store; elsewhere the processes path round-trips through cloudpickle in-process",
 ]
 COMPONENTS = c01.COMPONENTS
+
+
+PLACE_ODDS = dict(quick=(1, 8), thorough=(1, 4))
 
 
 class InjectedTaskError(Exception):
@@ -74,6 +77,11 @@ def generate(tp: Tape, tier: str):
     )
     case["fail_after_write_num"] = tp.choice([0, 0, 1, 3]) if kind == "threads" else 0
     case["opt"] = tp.choice([dict(kind="off"), dict(kind="default"), dict(kind="default")])
+    # placement: some runs execute (some of) their task bodies in fresh interpreters, from the serialized form
+    if tp.coin(*PLACE_ODDS.get(tier, (1, 8))):
+        case["place"] = dict(num=tp.choice([16, 16, 8]), workers=tp.choice([1, 2]),
+                             how="pickle" if kind == "processes" else "cloudpickle")
+        case["fail_after_write_num"] = 0  # (the injecting wrapper closes over the simulator and cannot be shipped)
     return case
 
 
@@ -125,8 +133,17 @@ def execute(case, sched=None):
     with PR.Session(case, sched) as rr:
         ok = PR.build_program(rr)
         if ok:
-            with fail_after_body(rr.sim, case.get("fail_after_write_num", 0)):
-                rr.results, rr.phase, rr.exc = PR.compute(rr)
+            pl = None
+            if case.get("place"):
+                from sim.remote import Placement
+
+                pl = rr.sim.placement = Placement(rr.sim, **case["place"])
+            try:
+                with fail_after_body(rr.sim, case.get("fail_after_write_num", 0)):
+                    rr.results, rr.phase, rr.exc = PR.compute(rr)
+            finally:
+                if pl is not None:
+                    pl.close()
         snap1 = rr.store.snapshot()
     sim = rr.sim
     shadow = G.shadow_of(case["prog"])
@@ -217,6 +234,14 @@ def shrink(case):
     import copy
 
     yield from c01.shrink(case)
+    if case.get("place"):
+        c = copy.deepcopy(case)
+        c.pop("place")
+        yield c
+        if case["place"]["workers"] > 1 or case["place"]["num"] < 16:
+            c = copy.deepcopy(case)
+            c["place"].update(workers=1, num=16)
+            yield c
     for key, val in (("zombie_num", 0), ("straggle_num", 0), ("mode", "atomic"), ("zombie_late", 0)):
         if case["sim"].get(key) != val:
             c = copy.deepcopy(case)
